@@ -373,6 +373,33 @@ def variant_rule(db, rule, tg, note):
     note['get_sites'] = n_sites
 
 
+_CF = {}
+
+
+def _collection_factories(db):
+    """static factories of Typification whose every return is the result of ApplyBool() / Bool(): what they return is a collection"""
+    if 'v' not in _CF:
+        out = []
+        for g in db.functions:
+            if g.cls == R + 'Typification' and g.rec.get('static') and g.body >= 0 and not g.rec.get('params'):
+                rets = [r for r in g.walk() if r['k'] == 'ReturnStmt']
+
+                def is_coll(r):
+                    if any((c.get('cs') or '').split('::')[-1] in ('ApplyBool', 'Bool') for c in g.calls(r)):
+                        return True
+                    v = g.strip(g.children(r)[0]) if g.children(r) else None
+                    if v is not None and v['k'] == 'DeclRefExpr' and v.get('name'):        # a (static) local initialised once with such a result
+                        inits = [h for h in db.functions if h.name == '%s::%s::<init>' % (g.name, v['name'])]
+                        inits += [g] if any(d.get('name') == v['name'] and 'init' in d and any((c.get('cs') or '').split('::')[-1] in ('ApplyBool', 'Bool') for c in g.calls(g.stmts[d['init']]))
+                                            for s0 in g.rec['stmts'] if s0['k'] == 'DeclStmt' for d in s0.get('decls', [])) else []
+                        return any(h is g or any((c.get('cs') or '').split('::')[-1] in ('ApplyBool', 'Bool') for c in h.calls()) for h in inits)
+                    return False
+                if rets and all(is_coll(r) for r in rets):
+                    out.append(g.name.split('::')[-1])
+        _CF['v'] = tuple(sorted(out))
+    return _CF['v']
+
+
 def accessor_rule(db, rule):
     want = {'E': ('IsElement', 'basic'), 'T': ('IsTuple', 'tuple'), 'B': ('IsCollection', 'collection')}
     n_sites = 0
@@ -424,7 +451,7 @@ def accessor_rule(db, rule):
             if ok is None:
                 # structure known by construction: ApplyBool()/Bool() results are collections, Tuple() results are tuples
                 o = f.strip(obj)
-                if o['k'] in ('CXXMemberCallExpr', 'CallExpr') and (o.get('cs') or '').split('::')[-1] in {'B': ('ApplyBool', 'Bool'), 'T': ('Tuple',), 'E': ()}[last]:
+                if o['k'] in ('CXXMemberCallExpr', 'CallExpr') and (o.get('cs') or '').split('::')[-1] in {'B': ('ApplyBool', 'Bool') + _collection_factories(db), 'T': ('Tuple',), 'E': ()}[last]:
                     ok = 'constructed as a %s' % want[last][1]
             if ok == 'reported':
                 continue
